@@ -620,7 +620,9 @@ def main(run):
     run_nsteps(run, rng)
     run_rk(run, rng)
     run_exp_solver(run, rng)
-    run.not_proved += ["trotter_third_order (analytic O(dt^3) bound: needs operator norms / BCH)",
+    run.not_proved += ["merge_ok: the matrix identity merge = merge_spec (reshape/transpose index theorem) and hence 'merged group = sum of embedded members' is checked exactly per case (g*:merge_spec), not proved; merge_ok_partial covers targets and refusal",
+                       "trotter_commuting_exact for ALL commuting families (needs the matrix exponential); proved per listed instance for all dt",
+                       "trotter_third_order (analytic O(dt^3) bound: needs operator norms / BCH)",
                        "convergence of RK / Trotter solvers as limits", "adiabatic accuracy"]
     return run.finish(level="proof", rule=RULE)
 
